@@ -42,6 +42,8 @@ pub const FMT_MINIS: &[&str] = &[
     "let x = (1) in ret (x)",
     "let f = { fn (x) (y) => ret (x, (y)) } in ! f 1 2",
     "fn x => fn y => fn z => ret (x, y, z)",
+    "fn x => (fn y => ret y)",
+    "let f = (fn (x : Int64) => (fn (y : Int64) => y)) in ret 1",
     "let r = (a = 1, b = 2) in let (= a, = b) = r in ret (a = a, b = b)",
     "let r = (a = 1, b = 2) in let (a = a, b = c) = r in ret (r/a)",
     "match x | +A(y) => ret y | +B() => (ret ()) | _ => do z <- ret 1; ret z end",
@@ -580,7 +582,10 @@ impl Check for Fmt {
                                     if cfg.text.is_empty() {
                                         // is the undeviated source itself not a fixed point after one run?
                                         let base_unstable = matches!(guarded(|| format_source(&base.text).and_then(|a| format_source(&a).map(|b| a != b))), Ok(Ok(true)));
-                                        if base_unstable {
+                                        if base_unstable && (base.name.starts_with("universe") || base.name.starts_with("poly")) {
+                                            // generated sources all begin alike: key to the shape of the first line that changes
+                                            format!("formatting is not idempotent at default options on a generated source (any layout): {:?} becomes {:?}", norm_line(out.lines().nth(line).unwrap_or("")), norm_line(again.lines().nth(line).unwrap_or("")))
+                                        } else if base_unstable {
                                             format!("formatting is not idempotent at default options on the source {:?} (any layout)", base.text.chars().take(48).collect::<String>())
                                         } else {
                                             format!("formatting is not idempotent at default options with {} {}", devkind, position)
@@ -588,7 +593,15 @@ impl Check for Fmt {
                                     } else {
                                         // keyed to the directive and the base source, so that another source or another
                                         // option that starts to misbehave is reported as new
-                                        if base.name.starts_with('/') {
+                                        // is the undeviated source under this directive itself not a fixed point after one run?
+                                        let with_cfg = format!("{}{}", cfg.text, base.text);
+                                        let base_unstable = matches!(guarded(|| format_source(&with_cfg).and_then(|a| format_source(&a).map(|b| a != b))), Ok(Ok(true)));
+                                        if !base_unstable {
+                                            // the deviation is what matters: key to the directive and the deviation site
+                                            format!("formatting is not idempotent under the directive {} with {} {}", cfg.text.trim(), devkind, position)
+                                        } else if base.name.starts_with("universe") || base.name.starts_with("poly") {
+                                            format!("formatting is not idempotent under an explicit format directive on a generated source: {:?} becomes {:?}", norm_line(out.lines().nth(line).unwrap_or("")), norm_line(again.lines().nth(line).unwrap_or("")))
+                                        } else if base.name.starts_with('/') {
                                             format!("formatting is not idempotent under an explicit format directive on the repository file {}", base.name.rsplit("/repo/").next().unwrap_or(&base.name))
                                         } else {
                                             format!("formatting is not idempotent under an explicit format directive on the source {:?}", base.text.chars().take(48).collect::<String>())
@@ -684,7 +697,7 @@ impl Check for FmtCli {
         r = r.nontrivial(lib != *src);
         let scratch = Scratch::new("c14cli");
         let path = scratch.write("main.zydeco", src);
-        let bin = verif_root().join("target/debug/zydeco");
+        let bin = std::env::current_exe().unwrap().parent().unwrap().join("zydeco");
         let run = |args: &[&str]| -> Option<i32> {
             let mut c = Command::new(&bin);
             c.args(args).arg(&path).stdin(Stdio::null()).stdout(Stdio::null()).stderr(Stdio::null()).env("RUST_BACKTRACE", "0");
@@ -735,4 +748,26 @@ impl Check for FmtCli {
         }
         r
     }
+}
+
+/// a line with generated identifiers and numbers normalised (`v12` -> `v`, `T3` -> `T`, `41` -> `N`)
+fn norm_line(l: &str) -> String {
+    let mut out = String::new();
+    let cs: Vec<char> = l.trim().chars().collect();
+    let mut i = 0;
+    while i < cs.len() {
+        if cs[i].is_ascii_digit() {
+            let ident_tail = i > 0 && (cs[i - 1].is_ascii_alphabetic());
+            while i < cs.len() && cs[i].is_ascii_digit() {
+                i += 1;
+            }
+            if !ident_tail {
+                out.push('N');
+            }
+        } else {
+            out.push(cs[i]);
+            i += 1;
+        }
+    }
+    out
 }
